@@ -59,6 +59,8 @@ struct Res {
     int st{0};
     long long ev{0}, sv{0}, ev2{0}, sv2{0};
     std::string_view et{}, stt{};
+    char const* alt_tag{nullptr};  // VALUE_RELAXED: exclusion tag of the known finding whose narrowed oracle etl still meets
+    char const* alt_note{nullptr}; // VALUE_RELAXED: what the narrowed oracle is
 };
 struct Ob {
     char const* name;
@@ -175,13 +177,13 @@ C15_V(alignment_of) C15_V(is_trivial) C15_V(is_trivially_copyable) C15_V(is_stan
 C15_V(is_polymorphic) C15_V(is_abstract) C15_V(is_final) C15_V(is_aggregate) C15_V(has_virtual_destructor)
 C15_V(has_unique_object_representations) C15_V(is_default_constructible) C15_V(is_copy_constructible)
 C15_V(is_move_constructible) C15_V(is_copy_assignable) C15_V(is_move_assignable) C15_V(is_destructible)
-C15_V(is_trivially_default_constructible) C15_V(is_trivially_copy_constructible) C15_V(is_trivially_move_constructible)
+C15_V(is_trivially_default_constructible)
 C15_V(is_trivially_copy_assignable) C15_V(is_trivially_move_assignable) C15_V(is_trivially_destructible)
 C15_V(is_nothrow_default_constructible) C15_V(is_nothrow_copy_constructible) C15_V(is_nothrow_move_constructible)
 C15_V(is_nothrow_copy_assignable) C15_V(is_nothrow_move_assignable) C15_V(is_nothrow_destructible)
 C15_V(is_swappable) C15_V(is_nothrow_swappable)
 C15_V2(is_same) C15_V2(is_base_of) C15_V2(is_convertible) C15_V2(is_nothrow_convertible) C15_V2(is_assignable)
-C15_V2(is_trivially_assignable) C15_V2(is_nothrow_assignable) C15_VH(is_constructible) C15_VH(is_trivially_constructible)
+C15_V2(is_trivially_assignable) C15_V2(is_nothrow_assignable) C15_VH(is_constructible)
 C15_VH(is_nothrow_constructible) C15_V2(is_swappable_with) C15_V2(is_nothrow_swappable_with) C15_VH(is_invocable)
 C15_VHH(is_invocable_r)
 
@@ -217,8 +219,58 @@ constexpr auto C_assignable_from() -> Res
     r.ev2 = r.ev;
     r.sv2 = relaxed ? 1 : 0;
     r.st  = r.ev == r.sv ? OK : (r.ev == r.sv2 ? VALUE_RELAXED : VALUE);
+    r.alt_tag  = "assignable_from.common_reference_clause";
+    r.alt_note = "etl agrees with std's definition minus the common_reference_with clause";
     return r;
 }
+
+// is_trivially_constructible ignores Args on the pinned tree and tests/type_traits pins that (known finding).  Narrowed
+// oracle: etl's answer must then at least equal std::is_trivially_constructible<T> (the zero-argument form).
+template <class T, class... Args>
+constexpr auto V_is_trivially_constructible() -> Res
+{
+    Res r;
+    if constexpr (requires {
+                      etl::is_trivially_constructible<T, Args...>::value;
+                      etl::is_trivially_constructible_v<T, Args...>;
+                  }) {
+        r.ev  = etl::is_trivially_constructible<T, Args...>::value ? 1 : 0;
+        r.sv  = std::is_trivially_constructible<T, Args...>::value ? 1 : 0;
+        r.ev2 = etl::is_trivially_constructible_v<T, Args...> ? 1 : 0;
+        r.sv2 = r.sv;
+        bool const zero = std::is_trivially_constructible<T>::value;
+        r.st = (r.ev == r.sv && r.ev2 == r.sv2) ? OK : ((r.ev == zero && r.ev2 == zero) ? VALUE_RELAXED : VALUE);
+        r.alt_tag  = "is_trivially_constructible.args_ignored";
+        r.alt_note = "etl equals std::is_trivially_constructible<T> without the arguments";
+    } else {
+        r.st = ETL_INVALID;
+    }
+    return r;
+}
+    #define C15_TRIV_CM(X)                                                                                                 \
+        template <class T>                                                                                                 \
+        constexpr auto V_##X() -> Res                                                                                      \
+        {                                                                                                                  \
+            Res r;                                                                                                         \
+            if constexpr (requires {                                                                                       \
+                              etl::X<T>::value;                                                                            \
+                              etl::X##_v<T>;                                                                               \
+                          }) {                                                                                             \
+                r.ev  = etl::X<T>::value ? 1 : 0;                                                                          \
+                r.sv  = std::X<T>::value ? 1 : 0;                                                                          \
+                r.ev2 = etl::X##_v<T> ? 1 : 0;                                                                             \
+                r.sv2 = std::X##_v<T> ? 1 : 0;                                                                             \
+                bool const zero = std::is_trivially_constructible<T>::value;                                               \
+                r.st = (r.ev == r.sv && r.ev2 == r.sv2) ? OK : ((r.ev == zero && r.ev2 == zero) ? VALUE_RELAXED : VALUE);  \
+                r.alt_tag  = "is_trivially_constructible.args_ignored";                                                    \
+                r.alt_note = "etl equals std::is_trivially_constructible<T> without the arguments";                        \
+            } else {                                                                                                       \
+                r.st = ETL_INVALID;                                                                                        \
+            }                                                                                                              \
+            return r;                                                                                                      \
+        }
+C15_TRIV_CM(is_trivially_copy_constructible)
+C15_TRIV_CM(is_trivially_move_constructible)
 
 // etl has no unwrap_reference_t alias: only ::type is compared
 template <class T>
@@ -635,7 +687,7 @@ inline auto detail(char const* name, Res const& r) -> std::string
     }
     case VALUE_RELAXED:
         return "etl::" + n + " = " + std::to_string(r.ev) + ", std::" + n + " = " + std::to_string(r.sv)
-             + " (etl agrees with std's definition minus the common_reference_with clause)";
+             + " (" + (r.alt_note ? r.alt_note : "") + ")";
     case TYPE: return "etl::" + n + " is '" + sv(r.et) + "', std::" + n + " is '" + sv(r.stt) + "' (or the _t alias / ::type differs)";
     case ETL_INVALID:
         return "etl::" + n + " has no usable member (substitution failure on ::value / ::type / _v) although std::" + n + " is valid";
@@ -711,7 +763,7 @@ void vf_run(vf::Ctx& c)
         account(flags);
         if ((flags & 1U) != 0) {
             vf::nontrivial_count();
-            vf::sample(sn, [&] { return std::string(name); });
+            if ((flags & 2U) != 0 || sub >= 4) { vf::sample(sn, [&] { return std::string(name); }); } // decorated types / limits, ratio, ...
         }
         if (!d.empty()) {
             if (list) {
@@ -722,7 +774,7 @@ void vf_run(vf::Ctx& c)
         }
     };
     for (auto const* o = c15_table; o->name != nullptr; ++o) {
-        one(o->name, o->r.st == VALUE_RELAXED ? "assignable_from.common_reference_clause" : o->tag, o->flags, o->sub, detail(o->name, o->r));
+        one(o->name, (o->r.st == VALUE_RELAXED && o->r.alt_tag != nullptr) ? o->r.alt_tag : o->tag, o->flags, o->sub, detail(o->name, o->r));
     }
     for (auto const* o = c15_ill; o->name != nullptr; ++o) {
         vf::count("obligations that are hard errors on the etl side");
